@@ -3,7 +3,7 @@
 
     Both formats are mapped to one neutral description of what a library SAYS, its [content]:
     cells by name; instances by instance name, target cell NAME, location, reflection and
-    rotation (whole degrees counter-clockwise, modulo 360); annotations; every shape with its
+    rotation (a whole number of degrees); annotations; every shape with its
     points, width, net and layer / purpose NUMBERS; abstract views with outline, ports (net and
     shapes per layer number) and blockages per layer number.  Rectangles are normalised to
     (lower-left, upper-right) corners: which two opposite corners are stored is a representation
@@ -17,6 +17,7 @@
     the blockages as a multiset (they live in a hash map). *)
 From Coq Require Import ZArith List String Bool Permutation.
 From L21 Require Import Base.F64 Base.Outcome Raw.RawData Raw.RawProto.
+From L21 Require Order.DepOrderSpec.
 Import ListNotations.
 Local Open Scope list_scope.
 Local Open Scope Z_scope.
@@ -53,12 +54,24 @@ Fixpoint omapM {A B : Type} (f : A -> option B) (l : list A) : option (list B) :
   end.
 
 (** * What a raw library says *)
-(** rotation: whole degrees counter-clockwise in [0, 360); [None] when the angle is not a whole
-    number of degrees (the schema cannot express it) *)
+(** Rotation.  Both formats document the same quantity: raw `Instance.angle` is "Angle of
+    rotation (degrees), Clockwise and applied *after* reflection", the schema's
+    `rotation_clockwise_degrees` is "Angle of rotation (degrees), Clockwise", a whole number in
+    an `i32`.  The rotation an instance has is therefore that NUMBER of degrees: the content
+    of a raw angle `Some(a)` is the integer a is equal to, the content of a message field r is
+    r ([rot_content] below), with no change of sign and no reduction modulo 360 (360 and 0
+    describe the same placement, but they are different field values, and the property's second
+    half wants the message back EQUAL).  No angle, `Some(0.0)` and `Some(-0.0)` all say
+    "rotation 0": they have the same content, so a library that comes back with `None` where
+    it had `Some(0.0)` has kept its rotation.  [None]: the angle is not a whole number of
+    degrees or does not fit an `i32` (the schema cannot express it). *)
 Definition angle_content (a : option Z) : option Z :=
   match a with
   | None => Some 0
-  | Some b => option_map (fun v => v mod 360) (f64_int_value b)
+  | Some b => match f64_int_value b with
+              | Some v => if i32_okb v then Some v else None
+              | None => None
+              end
   end.
 
 (** a net is a non-empty name: `Some("")` names no net (the schema writes "no net" as "") *)
@@ -135,8 +148,8 @@ Definition pls_entry (ls : playershapes) : option (Z * list shape) :=
   | Some l, Some ss => Some (pl_number l, map snd ss)
   | _, _ => None
   end.
-(** "Angle of rotation (degrees), Clockwise": the same rotation counter-clockwise *)
-Definition rot_content (cw : Z) : Z := (- cw) mod 360.
+(** "Angle of rotation (degrees), Clockwise": that number *)
+Definition rot_content (r : Z) : Z := r.
 Definition pinst_content (i : pinstance) : option cinst :=
   match pi_cell i, pi_origin i with
   | Some (Some (RefLocal n)), Some o => Some (mkcinst (pi_name i) n (pt_content o) (pi_reflect i) (rot_content (pi_rot i)))
@@ -238,10 +251,11 @@ Definition layers_wf (ly : layers) : Prop :=
   NoDup (map l_num ly) /\ (forall l, In l ly -> layer_wf l).
 
 (** * Raw libraries the schema can express ([proto_exportable]) *)
-(** c reaches d through one or more instances *)
-Inductive reaches (cells : list cell) : nat -> nat -> Prop :=
-| reaches_step : forall i c j, nth_error cells i = Some c -> In j (cell_deps c) -> reaches cells i j
-| reaches_trans : forall i j k, reaches cells i j -> reaches cells j k -> reaches cells i k.
+(** No cell reaches itself through one or more instances: [reach_plus] is the notion of the
+    dependency-order specification (Order/DepOrderSpec.v, property C17) on the graph "cell index
+    -> target indices of the instances of its layout". *)
+Definition acyclic (cells : list cell) : Prop :=
+  forall x, ~ DepOrderSpec.reach_plus (cell_deps_N cells) x x.
 
 Definition shape_ok (s : shape) : Prop :=
   match s with
@@ -264,7 +278,7 @@ Definition layout_ok (ly : layers) (ncells : nat) (l : layout) : Prop :=
 Definition proto_exportable (L : library) : Prop :=
   lib_units L <> Pico /\                                              (* units in the schema *)
   NoDup (map c_name (lib_cells L)) /\                                 (* references are by name *)
-  (forall i, ~ reaches (lib_cells L) i i) /\                          (* acyclic *)
+  acyclic (lib_cells L) /\
   (forall c, In c (lib_cells L) ->
      (forall l, c_layout c = Some l -> layout_ok (lib_layers L) (List.length (lib_cells L)) l) /\
      (forall a, c_abs c = Some a -> abstract_ok (lib_layers L) a)).
@@ -290,12 +304,24 @@ Definition pls_abs_canon (ly0 : layers) (p : purpose) (ls : playershapes) : Prop
   Forall (fun q => pp_net q = EmptyString) (pls_paths ls) /\
   (exists l key ll, pls_layer ls = Some l /\ ly_keynum ly0 (pl_number l) = Some key /\
      ly_get ly0 key = Some ll /\ layer_pnum ll p = Some (pl_purpose l)).
+(** the key (slot of [ly0]) a LayerShapes of an abstract is stored under *)
+Definition pls_key (ly0 : layers) (ls : playershapes) : option nat :=
+  match pls_layer ls with Some l => ly_keynum ly0 (pl_number l) | None => None end.
+(** strictly ascending, all defined *)
+Fixpoint ascending_keys (l : list (option nat)) : Prop :=
+  match l with
+  | a :: r => match r with
+              | b :: _ => match a, b with Some x, Some y => (x < y)%nat | _, _ => False end
+              | [] => True
+              end /\ ascending_keys r
+  | [] => True
+  end.
+(** the layer list of a port / of the blockages: the exporter writes a hash map's entries in
+    ascending key order, so only a list in that order (which also makes the layers distinct)
+    can come back as it was *)
 Definition plss_abs_canon (ly0 : layers) (p : purpose) (lss : list playershapes) : Prop :=
-  Forall (pls_abs_canon ly0 p) lss /\
-  NoDup (map (fun ls => option_map pl_number (pls_layer ls)) lss).
-Definition pinst_canon (i : pinstance) : Prop := 0 <= pi_rot i < 360.
+  Forall (pls_abs_canon ly0 p) lss /\ ascending_keys (map (pls_key ly0) lss).
 Definition playout_canon (l : playout) : Prop :=
-  Forall pinst_canon (ply_insts l) /\
   Forall (fun ls => pls_canon ls /\ pls_nonempty ls) (ply_shapes l) /\
   NoDup (map pls_lp (ply_shapes l)).
 Definition pabs_canon (ly0 : layers) (a : pabstract) : Prop :=
@@ -309,7 +335,7 @@ Definition pcell_canon (ly0 : layers) (c : pcell) : Prop :=
 Definition canonical (ly0 : layers) (P : plib) : Prop :=
   pb_author P = false /\ Forall (pcell_canon ly0) (pb_cells P).
 
-(** abstract layer lists in ascending layer-number order (what the sorting oracle produces) *)
-Definition plss_sorted (lss : list playershapes) : Prop :=
-  forall i j a b, (i < j)%nat -> nth_error lss i = Some a -> nth_error lss j = Some b ->
-    forall la lb, pls_layer a = Some la -> pls_layer b = Some lb -> pl_number la < pl_number lb.
+(** * Type invariant of a message: `rotation_clockwise_degrees` is an `i32` *)
+Definition i32_ok (z : Z) : Prop := -2147483648 <= z < 2147483648.
+Definition proto_typed (P : plib) : Prop :=
+  forall c l i, In c (pb_cells P) -> pc_layout c = Some l -> In i (ply_insts l) -> i32_ok (pi_rot i).
